@@ -1535,6 +1535,11 @@ def run_C15(ctx):
                 d0 = rng.choice(["shift", "unshift", "unshift"])
                 pre.append((d0, pick_sub(rng, rA, cA, idsA) if d0 == "shift" else pick_sub(rng, rB, cB, idsB)))
             res.dist["shifter: earlier calls on the same object"] += 1
+        if any(d0 == "unshift" for d0, _w in pre) and rng.random() < 0.7:
+            # after earlier unshift calls (possibly of wells of B outside the image of A): the WHOLE plate A is shifted, so
+            # that any translation the object may have remembered wrongly shows
+            direction = "shift"
+            wells = ("M", rA, cA, [w for row in idsA for w in row])
         via = rng.choice([None, None, None, "copy", "deepcopy", "pickle"])
         if via:
             res.dist["transform object used through copy / deepcopy / pickle"] += 1
@@ -2535,7 +2540,7 @@ def run_C14(ctx):
     rng = ctx.rng
     cases = []
     fragile = 0
-    tight_left = ctx.n(40)
+    tight_left = ctx.n(120)
     for _ in range(ctx.n(560) + tight_left):
         u = rng.random()
         tp = None
@@ -2590,7 +2595,7 @@ def run_C14(ctx):
         if rng.random() < (0.3 if tp is None else 0.7):
             # vmax handed over as a numpy array of a narrower / integer type (what a labware definition table gives):
             # values exactly representable in that type, incl. deep-well volumes >= 2048 where float16 has steps of 2..4
-            dt = rng.choice([np.float16, np.float16, np.float32, np.int64, np.int32, np.uint16] if tp is None else [np.float16, np.float16, np.float32])
+            dt = rng.choice([np.float16, np.float16, np.float32, np.int64, np.int32, np.uint16] if tp is None else [np.float16, np.float16, np.float16, np.float32])
             if stress and tp is None and rng.random() < 0.7:
                 vmax = [F(rng.choice([1000, 2048, 3000, 4096, 5000])) for _ in range(C)]
                 minT = F(rng.choice([10, 20, 50]))
